@@ -28,13 +28,25 @@ pub struct Case {
     pub chunk: usize,
     pub file_len: usize,
     pub ops: Vec<Op>,
+    /// writer machine only: writes beyond this file size fail (RLIMIT_FSIZE in a forked child)
+    #[serde(default)]
+    pub fsize_limit: Option<u64>,
 }
 
 fn piece(counter: usize, len: usize) -> Vec<u8> {
     (0..len).map(|i| (counter * 31 + i * 7 + 1) as u8).collect()
 }
 
+const CLASSES: &[&str] = &["fill-after-remove", "fill-after-eof", "remove-too-many", "add-when-full", "bulk-add", "empty-after-2-adds", "writer", "reader", "size-0", "size-65535", "write-limit-hit"];
+
 pub fn judge(dir: &Path, c: &Case, obs: &mut Obs) -> Judge {
+    match c.fsize_limit {
+        Some(l) if c.writer => in_limited_child(l, obs, CLASSES, |o| judge_unlimited(dir, c, o)),
+        _ => judge_unlimited(dir, c, obs),
+    }
+}
+
+fn judge_unlimited(dir: &Path, c: &Case, obs: &mut Obs) -> Judge {
     let path = dir.join("window.bin");
     let bytes = content(c.size as u64 * 131 + c.chunk as u64, c.file_len);
     let file = if c.writer {
@@ -166,6 +178,26 @@ fn judge_inner(path: &Path, file: File, bytes: &[u8], c: &Case, obs: &mut Obs) -
                     Ok(r) => r,
                     Err(m) => viol!("window-panic", "empty panicked at step {}: {}", step, m),
                 };
+                let pending: usize = model.iter().map(|p| p.len()).sum();
+                if let Some(limit) = c.fsize_limit {
+                    if (written.len() + pending) as u64 > limit {
+                        // the write cannot succeed completely: empty must report it, the file stays a prefix of what was to be written
+                        obs.class("write-limit-hit");
+                        obs.nontrivial = true;
+                        let mut want = written.clone();
+                        for p in model.iter() {
+                            want.extend_from_slice(p);
+                        }
+                        let on_disk = fs::read(path).unwrap_or_default();
+                        if r.is_ok() {
+                            viol!("short-write-unreported", "empty returned Ok at step {} although only {} of {} bytes could be written (file size limit {})", step, on_disk.len(), want.len(), limit);
+                        }
+                        if on_disk.len() > want.len() || on_disk[..] != want[..on_disk.len()] {
+                            viol!("file-contents", "after the failed empty the file ({} bytes) is not a prefix of the pieces in order", on_disk.len());
+                        }
+                        return Ok(());
+                    }
+                }
                 if let Err(e) = r {
                     viol!("empty-error", "empty failed at step {}: {}", step, e);
                 }
@@ -252,6 +284,8 @@ pub fn strategy() -> BoxedStrategy<Case> {
             size,
             chunk,
             file_len,
+            // one writer case in four runs under a small file-size limit
+            fsize_limit: if writer && (file_len + ops.len()) % 4 == 0 { Some(((file_len * 7 + ops.len() * 3) % 60) as u64) } else { None },
             ops,
         })
         .boxed()
@@ -289,6 +323,7 @@ fn exhaustive_cases(l: usize) -> Vec<Case> {
                             chunk,
                             file_len,
                             ops: s.clone(),
+                            fsize_limit: None,
                         });
                     }
                 }
@@ -299,7 +334,7 @@ fn exhaustive_cases(l: usize) -> Vec<Case> {
 }
 
 pub fn run(ctx: &Ctx) {
-    ctx.set_rule("operation sequences over tftpd::Window in the two ways its callers use it (reader: file opened read-only, fill/remove/add; writer: fresh write-only file, add/remove/empty), compared after every step with a VecDeque reference model plus a cursor into the file bytes (elements, return values, len/is_empty/is_full, file contents). Exhaustive: all sequences up to length L over 4 ops for size 0..3, chunk 1..3 and every file length up to (size+2)*chunk+1; random: sequences up to 40 ops, size 0..6 and 65535, chunk 1..9. Non-trivial = a fill after a remove, or an empty after >=2 adds; distinct = distinct (parameters, sequence).");
+    ctx.set_rule("operation sequences over tftpd::Window in the two ways its callers use it (reader: file opened read-only, fill/remove/add; writer: fresh write-only file, add/remove/empty), a quarter of the random writer cases run under a small RLIMIT_FSIZE (a write that cannot complete must be reported by empty, never silently shortened); all compared after every step with a VecDeque reference model plus a cursor into the file bytes (elements, return values, len/is_empty/is_full, file contents). Exhaustive: all sequences up to length L over 4 ops for size 0..3, chunk 1..3 and every file length up to (size+2)*chunk+1; random: sequences up to 40 ops, size 0..6 and 65535, chunk 1..9. Non-trivial = a fill after a remove, or an empty after >=2 adds; distinct = distinct (parameters, sequence).");
     ctx.assume("fill is only exercised on windows over readable files and empty only on writable ones (the callers' use)");
     let dirs = DirPool::new(ctx, "c18");
     let l = ctx.tier.pick(5, 6);
